@@ -105,11 +105,22 @@ inductive Cond
   | unknown (what : Nat)
   deriving DecidableEq, Repr
 
+def ltb (a b : Int) : Bool := decide (a < b)
+def leb (a b : Int) : Bool := decide (a ≤ b)
+def eqb (a b : Int) : Bool := decide (a = b)
+
+theorem ltb_iff (a b : Int) : ltb a b = true ↔ a < b := by simp [ltb]
+theorem leb_iff (a b : Int) : leb a b = true ↔ a ≤ b := by simp [leb]
+theorem eqb_iff (a b : Int) : eqb a b = true ↔ a = b := by simp [eqb]
+theorem ltb_false (a b : Int) : ltb a b = false ↔ ¬ a < b := by simp [ltb]
+theorem leb_false (a b : Int) : leb a b = false ↔ ¬ a ≤ b := by simp [leb]
+theorem eqb_false (a b : Int) : eqb a b = false ↔ ¬ a = b := by simp [eqb]
+
 def evalC (ρ : Env) (A : Arrays) : Cond → Bool
-  | .lt a b => eval ρ A a < eval ρ A b
-  | .le a b => eval ρ A a ≤ eval ρ A b
-  | .eq a b => eval ρ A a = eval ρ A b
-  | .ne a b => eval ρ A a ≠ eval ρ A b
+  | .lt a b => ltb (eval ρ A a) (eval ρ A b)
+  | .le a b => leb (eval ρ A a) (eval ρ A b)
+  | .eq a b => eqb (eval ρ A a) (eval ρ A b)
+  | .ne a b => !eqb (eval ρ A a) (eval ρ A b)
   | .and c d => evalC ρ A c && evalC ρ A d
   | .or c d => evalC ρ A c || evalC ρ A d
   | .oneOf e vs => vs.contains (eval ρ A e)
@@ -127,18 +138,18 @@ inductive Stmt
 def runEnv (A : Arrays) : Env → List Stmt → Env
   | ρ, [] => ρ
   | ρ, .set n e :: rest => runEnv A (upd ρ n (eval ρ A e)) rest
-  | ρ, .setIf c n e :: rest => runEnv A (if evalC ρ A c then upd ρ n (eval ρ A e) else ρ) rest
+  | ρ, .setIf c n e :: rest => runEnv A (bif evalC ρ A c then upd ρ n (eval ρ A e) else ρ) rest
   | ρ, .ret _ :: _ => ρ
-  | ρ, .retIf c _ :: rest => if evalC ρ A c then ρ else runEnv A ρ rest
+  | ρ, .retIf c _ :: rest => bif evalC ρ A c then ρ else runEnv A ρ rest
   | ρ, .unknown _ :: _ => ρ
 
 /-- the value a statement list returns (`none` if no `return` fires) -/
 def runRet (A : Arrays) : Env → List Stmt → Option Int
   | _, [] => none
   | ρ, .set n e :: rest => runRet A (upd ρ n (eval ρ A e)) rest
-  | ρ, .setIf c n e :: rest => runRet A (if evalC ρ A c then upd ρ n (eval ρ A e) else ρ) rest
+  | ρ, .setIf c n e :: rest => runRet A (bif evalC ρ A c then upd ρ n (eval ρ A e) else ρ) rest
   | ρ, .ret e :: _ => some (eval ρ A e)
-  | ρ, .retIf c e :: rest => if evalC ρ A c then some (eval ρ A e) else runRet A ρ rest
+  | ρ, .retIf c e :: rest => bif evalC ρ A c then some (eval ρ A e) else runRet A ρ rest
   | _, .unknown _ :: _ => none
 
 /-- value returned, 0 if none (never for the functions used) -/
@@ -163,6 +174,16 @@ def call (A : Arrays) (f : Fn) (args : List Int) : Int :=
 
 /-- run a loop body / statement block on named inputs and read one variable afterwards -/
 def step (A : Arrays) (ρ : Env) (body : List Stmt) (out : Nat) : Int := runEnv A ρ body out
+
+/-- `for i := k; i < k + n; i++ { body }` with loop variable number `iVar` (the loop header itself is
+    reported by the translator as text and compared literally) -/
+def forLoop (A : Arrays) (body : List Stmt) (iVar : Nat) : Nat → Nat → Env → Env
+  | 0, _, ρ => ρ
+  | n + 1, k, ρ => forLoop A body iVar n (k + 1) (runEnv A (upd ρ iVar (k : Int)) body)
+
+/-- a function of the shape `pre; for i := 0; i < n; i++ { body }; after` -/
+def callLoop (A : Arrays) (pre body after : List Stmt) (iVar n : Nat) (ρ : Env) : Int :=
+  retVal (runRet A (forLoop A body iVar n 0 (runEnv A ρ pre)) after)
 
 /-! ## normaliser: inline single-assignment code, sort commutative operands, flatten and sort
     the associative-commutative bit operators — with soundness proofs -/
@@ -210,11 +231,20 @@ def rebuild (op : Op) (t : Ty) : List Expr → Expr
   | [x] => x
   | x :: y :: ys => .bin op t x (rebuild op t (y :: ys))
 
+/-- insertion sort (structural, so that the kernel can evaluate it) -/
+def insertE (x : Expr) : List Expr → List Expr
+  | [] => [x]
+  | y :: ys => if Expr.le x y then x :: y :: ys else y :: insertE x ys
+
+def sortE : List Expr → List Expr
+  | [] => []
+  | x :: xs => insertE x (sortE xs)
+
 def normE : Expr → Expr
   | .bin op t a b =>
     let a' := normE a
     let b' := normE b
-    if op.isAC then rebuild op t ((flatten op t a' ++ flatten op t b').mergeSort Expr.le)
+    if op.isAC then rebuild op t (sortE (flatten op t a' ++ flatten op t b'))
     else if op.isComm then (if Expr.le a' b' then .bin op t a' b' else .bin op t b' a')
     else .bin op t a' b'
   | .conv t e => .conv t (normE e)
@@ -254,6 +284,27 @@ def inlineVar (out : Nat) : List (Nat × Expr) → List Stmt → Option Expr
 /-- canonical forms compared by the tie-A obligations -/
 def canonRet (body : List Stmt) : Option Expr := (inlineRet [] body).map normE
 def canonVar (out : Nat) (body : List Stmt) : Option Expr := (inlineVar out [] body).map normE
+def canonFn (f : Fn) : List (Nat × Ty) × Ty × Option Expr := (f.params, f.result, canonRet f.body)
+
+/-- statement-wise normal form for blocks with conditionals (no inlining across statements) -/
+def normC : Cond → Cond
+  | .lt a b => .lt (normE a) (normE b)
+  | .le a b => .le (normE a) (normE b)
+  | .eq a b => .eq (normE a) (normE b)
+  | .ne a b => .ne (normE a) (normE b)
+  | .and c d => .and (normC c) (normC d)
+  | .or c d => .or (normC c) (normC d)
+  | .oneOf e vs => .oneOf (normE e) vs
+  | .unknown w => .unknown w
+
+def normS : Stmt → Stmt
+  | .set n e => .set n (normE e)
+  | .setIf c n e => .setIf (normC c) n (normE e)
+  | .ret e => .ret (normE e)
+  | .retIf c e => .retIf (normC c) (normE e)
+  | .unknown w => .unknown w
+
+def normStmts (b : List Stmt) : List Stmt := b.map normS
 
 /-- pieces of `iputil.ToString`'s output as the translator reports them -/
 inductive IpPiece
